@@ -105,13 +105,13 @@ Proof.
   destruct (lrest l) as [|c r] eqn:Hl.
   { intros E. injection E as <- <-. cbn [lpos]. right. lia. }
   destruct (byte_of c =? 34)%N eqn:Eq.
-  { destruct (lex_str (S (String.length r)) r (S (lpos l)) "" (lpos l) (llen l)) as [[t0 rest] pos] eqn:Es.
-    destruct (lex_str_spec _ _ _ _ _ _ _ _ _ Es) as [S1 _]. apply advx_len in S1.
+  { destruct (lex_str false (S (String.length r)) r (S (lpos l)) "" (lpos l) (llen l)) as [[t0 rest] pos] eqn:Es.
+    destruct (lex_str_spec _ _ _ _ _ _ _ _ _ _ Es) as [S1 _]. apply advx_len in S1.
     intros E. injection E as <- <-. cbn [lpos String.length]. right. lia. }
   destruct (starts_ldq (String c r)) eqn:El.
   { set (r3 := str_drop 3 (String c r)) in *.
-    destruct (lex_str (S (String.length r3)) r3 (lpos l + 3) "" (lpos l) (llen l)) as [[t0 rest] pos] eqn:Es.
-    destruct (lex_str_spec _ _ _ _ _ _ _ _ _ Es) as [S1 _]. apply advx_len in S1.
+    destruct (lex_str true (S (String.length r3)) r3 (lpos l + 3) "" (lpos l) (llen l)) as [[t0 rest] pos] eqn:Es.
+    destruct (lex_str_spec _ _ _ _ _ _ _ _ _ _ Es) as [S1 _]. apply advx_len in S1.
     pose proof (starts_ldq_len _ El) as L3.
     assert (L : String.length r3 = String.length (String c r) - 3) by (unfold r3; apply str_drop_length).
     intros E. injection E as <- <-. cbn [lpos]. right. lia. }
